@@ -641,6 +641,15 @@ struct ConvertOptions {
     in_calc: bool,
 }
 
+/// Whether it is a function in which the `+` and `-` operators must be surrounded by whitespace.
+fn is_math_function(name: &str) -> bool {
+    const MATH_FUNCTIONS: [&str; 20] = [
+        "calc", "min", "max", "clamp", "round", "mod", "rem", "sin", "cos", "tan", "asin", "acos", "atan",
+        "atan2", "pow", "sqrt", "hypot", "log", "exp", "abs",
+    ];
+    MATH_FUNCTIONS.iter().any(|x| x.eq_ignore_ascii_case(name)) || name.eq_ignore_ascii_case("sign")
+}
+
 fn convert_rpx_in_block(
     input: &mut StepParser,
     ss: &mut StyleSheetTransformer,
@@ -665,16 +674,21 @@ fn convert_rpx_in_block(
                     input.next_including_whitespace()?
                 };
                 match &*next {
-                    Token::CurlyBracketBlock
-                    | Token::SquareBracketBlock
-                    | Token::ParenthesisBlock => {
+                    Token::CurlyBracketBlock | Token::SquareBracketBlock => {
                         let close = ss.append_nested_block(next.clone(), input);
                         convert_rpx_in_block(input, ss, None);
                         ss.append_nested_block_close(close, input);
                     }
+                    Token::ParenthesisBlock => {
+                        // a parenthesized part of a calculation is still a calculation
+                        let config = in_calc.then_some(ConvertOptions { in_calc: true });
+                        let close = ss.append_nested_block(next.clone(), input);
+                        convert_rpx_in_block(input, ss, config);
+                        ss.append_nested_block_close(close, input);
+                    }
                     Token::Function(func) => {
                         let func: &str = func;
-                        let config = if func == "calc" {
+                        let config = if in_calc || is_math_function(func) {
                             Some(ConvertOptions { in_calc: true })
                         } else {
                             None
